@@ -91,6 +91,72 @@ def c10_ops(t: P2, p: int, names: int, second: int) -> bool:
     return chx.judge("C10", "c10_ops", raw, (prods, nm, sec), obs, _oracle, realize_obs=False)
 
 
+# ---- substitution of two terminals at once (the substitution is simultaneous: the grammars put in are not rewritten) ----
+# (grammar for a, grammar for b, a inserted first?); production codes as in SECOND
+PAIRS = [([(0, [3])], [(0, [2])], True), ([(0, [3])], [(0, [2])], False),
+         ([(0, [3, 3])], [(0, [2]), (0, [])], True), ([(0, [2, 3])], [(0, [2, 2])], False),
+         ([(0, [2])], [(0, [1, 2]), (1, [3])], True), ([(0, [1]), (1, [3]), (1, [2, 2])], [(0, [3])], False),
+         ([(0, [])], [(0, [2, 0]), (0, [3])], True), ([(0, [3, 0]), (0, [2])], [], False)]
+
+
+def substitute2_lang(g1, ga, gb):
+    """Language of g1 with a replaced by L(ga) and b by L(gb) simultaneously, up to length L."""
+    starts = {"a": ("V", ("a", ga.start)), "b": ("V", ("b", gb.start))}
+    prods = []
+    for h, b in g1.prods:
+        prods.append((("1", h), tuple(("V", ("1", s[1])) if s[0] == "V" else starts.get(s[1], s) for s in b)))
+    for tag, g in (("a", ga), ("b", gb)):
+        for h, b in g.prods:
+            prods.append(((tag, h), tuple(("V", (tag, s[1])) if s[0] == "V" else s for s in b)))
+    return OC.words_upto(OC.G(("1", g1.start), prods, variables=[("a", ga.start), ("b", gb.start)]), L)
+
+
+def _oracle_s2(args, obs):
+    prods, pair = args
+    g1 = enc.ref_cfg(prods, 2)
+    ga, gb = enc.ref_cfg(pair[0], 2), enc.ref_cfg(pair[1], 2)
+    tags = grammar_tags(g1) + ["two_keys", "a_first" if pair[2] else "b_first"]
+    want = substitute2_lang(g1, ga, gb)
+    fails = []
+    for op, res in obs.items():
+        if res[0] == "exc":
+            fails.append(chx.exc_failure(op, res, tags=tags))
+            continue
+        got = OC.extract(res[1])
+        gl = OC.words_upto(got, L)
+        if gl != want:
+            fails.append({"kind": "language", "op": op, "tags": tags,
+                          "detail": "differs on %r" % (sorted(gl ^ want)[:3],), "result": got.describe()})
+    return len(prods) >= 1 and bool(OC.words_upto(g1, L)), fails, \
+        {"g1": g1.describe(), "ga": ga.describe(), "gb": gb.describe(), "a_first": pair[2]}
+
+
+def c10_subst2(t: P2, p: int, pair: int) -> bool:
+    """
+    pre: pinned(p=p, h0=t[0], l0=t[1], pair=pair)
+    pre: ((0 <= p) & (p <= 2)) & ((0 <= pair) & (pair < 8))
+    pre: cfg_canonical(t, p, 2, 2, 2)
+    post: _
+    """
+    raw = (t, p, pair)
+    prods = enc.decode_cfg(t, p, 2, 2, 2)
+    pr = PAIRS[enc.pick(pair, 8)]
+    chx.enter("c10_subst2", raw)
+    from pyformlang.cfg import Terminal
+    g1 = enc.build_cfg(prods, 2)
+    ga, gb = enc.build_cfg(pr[0], 2), enc.build_cfg(pr[1], 2)
+    sub = {Terminal("a"): ga, Terminal("b"): gb} if pr[2] else {Terminal("b"): gb, Terminal("a"): ga}
+    obs = {"substitute2": chx.guarded(g1.substitute, sub)}
+    return chx.judge("C10", "c10_subst2", raw, (prods, pr), obs, _oracle_s2, realize_obs=False)
+
+
+def _sh_s2(tier):
+    if tier == "quick":
+        return product_pins(p=[1], pair=[0, 1, 3, 5]) + product_pins(p=[2], h0=[0], l0=[2], pair=[0, 1, 2, 3])
+    return product_pins(p=[1], pair=list(range(8))) + \
+        product_pins(p=[2], h0=[0, 1], l0=[0, 1, 2], pair=list(range(8)))
+
+
 def _sh(tier):
     if tier == "quick":
         return [{"p": 1, "names": 0, "second": 0}, {"p": 1, "names": 1, "second": 6}] + \
@@ -115,5 +181,14 @@ CONDS = [
           "thorough": "all 904 G1 x 4 name sets x 8 second operands (+ 2 name sets with a non-start variable named like a fresh start symbol x 3 second operands) (same object, empty, eps-only, S->a, S->b, "
                       "S->aS|eps, S->A A->b, S->SS|a); also | + ~"},
          FUNCS, RULE,
+         assumptions=["languages compared on all words of length <= 3 (oracle fixpoint on extracted productions)"]),
+    Cond("C10", c10_subst2, _sh_s2,
+         {"quick": "G1 with 1 production (all) or 2 productions (first body of length 2) over {S,A}/{a,b}; "
+                   "substitute({a: Ga, b: Gb}) for 4 of 8 pairs (Ga, Gb) in which each grammar mentions the other "
+                   "key's terminal (a->b b->a swap, bodies of length 2, shared variable names, eps), in both "
+                   "insertion orders of the dict; language compared with the simultaneous substitution on words of "
+                   "length <=3",
+          "thorough": "all 904 G1 x the 8 pairs"},
+         ["CFG.substitute"], RULE,
          assumptions=["languages compared on all words of length <= 3 (oracle fixpoint on extracted productions)"]),
 ]
